@@ -169,7 +169,7 @@ def annotate(ex):
 
 def concurrent(ctx, exe):
     executions = []
-    limit = 6000 if ctx.quick else 150000
+    limit = 4000 if ctx.quick else 150000
     nrand = 500 if ctx.quick else 20000
     all_exh = True
 
@@ -217,7 +217,11 @@ def run(ctx):
     ctx.exhaustive = True
     distinct, mult = tracecheck.dedupe(exs)
     ctx.extra["seq_executions"] = len(exs)
-    fails = ctx.validate("Info", "RegTrace", "RegTrace.cfg", distinct, batch=3000, timeout=1500)
+    # two groups (each reports its first failures): pure registry behaviours, behaviours with object arrays
+    pure = [e for e in distinct if not any(ev.get("op") == "obj" for ev in e)]
+    withobj = [e for e in distinct if any(ev.get("op") == "obj" for ev in e)]
+    fails = ctx.validate("Info", "RegTrace", "RegTrace.cfg", pure, batch=3000, timeout=1500) + \
+        ctx.validate("Info", "RegTrace", "RegTrace.cfg", withobj, batch=3000, timeout=1500)
     for f in fails:
         ctx.violation("real info registry diverges from Registry.tla: %s" % json.dumps(f.describe())[:1500],
                       {"kind": "seq", "events": f.execution, "detail": f.describe()})
